@@ -8351,12 +8351,23 @@ func E11StickyFlag(c *core.Ctx, r *core.Report) {
 	r.Floor("E11.sticky-flags", 1)
 }
 
-// E11SVGMiterLimitCarried: every miter joiner the importer installs carries the miter limit in effect.
+// E11SVGMiterLimitCarried: every limited joiner the importer installs carries the miter limit in effect.
 func E11SVGMiterLimitCarried(c *core.Ctx, r *core.Report) {
-	r.Rule("E11.svg-miterlimit-carried", "stroke-miterlimit is an inherited SVG property of its own: the importer keeps it in the parser state (written by the `stroke-miterlimit` case, saved and restored with the state), independent of the order in which it and stroke-linejoin arrive. Wherever svg.go hands a miter joiner to SetStrokeJoiner — a MiterJoiner literal, or one of the package's predefined joiners whose initialiser is a MiterJoiner literal (MiterJoin, MiterClipJoin, which carry the fixed limit 4) — its Limit is read from a strokeMiterLimit state field. With the predefined joiner, `<g stroke-miterlimit=\"10\"><path stroke-linejoin=\"miter\" …/></g>` bevels corners the document asks to be mitered")
+	r.Rule("E11.svg-miterlimit-carried", "stroke-miterlimit is an inherited SVG property of its own: the importer keeps it in the parser state (written by the `stroke-miterlimit` case, saved and restored with the state), independent of the order in which it and stroke-linejoin arrive, and the library's own SVG writer emits it for miter *and* arcs joins. (1) Wherever svg.go hands a joiner with a limit to SetStrokeJoiner — a MiterJoiner or ArcsJoiner literal, or one of the package's predefined joiners whose initialiser is such a literal (MiterJoin, MiterClipJoin, ArcsJoin, ArcsClipJoin, which carry the fixed limit 4) — its Limit is read from a strokeMiterLimit state field. (2) The `stroke-miterlimit` case patches the limit of the joiner already installed for both kinds (a type assertion to MiterJoiner and one to ArcsJoiner). With the predefined joiner, `<g stroke-miterlimit=\"10\"><path stroke-linejoin=\"miter\" …/></g>` bevels corners the document asks to be mitered, and `stroke-linejoin:arcs;stroke-miterlimit:10` — what the writer emits for ArcsJoiner{BevelJoin, 10} — is read back with limit 4")
 	p := c.MustPkg("")
 	info := p.TypesInfo
-	// package-level variables initialised with a MiterJoiner literal
+	limited := func(t types.Type) string {
+		if t == nil {
+			return ""
+		}
+		for _, k := range []string{"MiterJoiner", "ArcsJoiner"} {
+			if strings.HasSuffix(t.String(), "canvas."+k) {
+				return k
+			}
+		}
+		return ""
+	}
+	// package-level variables initialised with a MiterJoiner/ArcsJoiner literal
 	predefined := map[types.Object]bool{}
 	for _, f := range p.Syntax {
 		for _, d := range f.Decls {
@@ -8368,10 +8379,8 @@ func E11SVGMiterLimitCarried(c *core.Ctx, r *core.Report) {
 				vs := sp.(*ast.ValueSpec)
 				for i, nm := range vs.Names {
 					if i < len(vs.Values) {
-						if cl, ok := core.Unparen(vs.Values[i]).(*ast.CompositeLit); ok {
-							if t := info.TypeOf(cl); t != nil && strings.HasSuffix(t.String(), "MiterJoiner") {
-								predefined[info.Defs[nm]] = true
-							}
+						if cl, ok := core.Unparen(vs.Values[i]).(*ast.CompositeLit); ok && limited(info.TypeOf(cl)) != "" {
+							predefined[info.Defs[nm]] = true
 						}
 					}
 				}
@@ -8397,7 +8406,7 @@ func E11SVGMiterLimitCarried(c *core.Ctx, r *core.Report) {
 			isPre := false
 			switch x := arg.(type) {
 			case *ast.CompositeLit:
-				if t := info.TypeOf(x); t != nil && strings.HasSuffix(t.String(), "MiterJoiner") {
+				if limited(info.TypeOf(x)) != "" {
 					lit = x
 				}
 			case *ast.Ident:
@@ -8406,11 +8415,11 @@ func E11SVGMiterLimitCarried(c *core.Ctx, r *core.Report) {
 				}
 			}
 			if lit == nil && !isPre {
-				return true // not a miter joiner (or a local whose Limit the caller patches)
+				return true // a joiner without a limit (or a local whose Limit the caller patches)
 			}
 			ord++
 			n++
-			key := fmt.Sprintf("canvas.%s|miter joiner #%d carries the state's limit", core.FuncName(fd), ord)
+			key := fmt.Sprintf("canvas.%s|limited joiner #%d carries the state's limit", core.FuncName(fd), ord)
 			if isPre {
 				r.Fail("E11.svg-miterlimit-carried", key, c.Pos(call.Pos()), "the predefined joiner `"+types.ExprString(arg)+"` with its fixed limit is installed: a stroke-miterlimit set earlier (inherited from a group, from a style sheet, or earlier in the attribute list) is forgotten")
 				return true
@@ -8437,6 +8446,58 @@ func E11SVGMiterLimitCarried(c *core.Ctx, r *core.Report) {
 	}
 	r.Count("E11.svg-miter-joiners", n)
 	r.Floor("E11.svg-miter-joiners", 3)
+	// (2) the stroke-miterlimit case patches both kinds of installed joiner
+	set := core.MustFuncDecl(p, "svgParser.setAttribute")
+	var clause *ast.CaseClause
+	ast.Inspect(set.Body, func(m ast.Node) bool {
+		if cc, ok := m.(*ast.CaseClause); ok {
+			for _, e := range cc.List {
+				if s, ok := constString(info, e); ok && s == "stroke-miterlimit" {
+					clause = cc
+				}
+			}
+		}
+		return true
+	})
+	key := "canvas.svgParser.setAttribute|stroke-miterlimit patches the installed joiner of either kind"
+	if clause == nil {
+		r.Fail("E11.svg-miterlimit-carried", key, c.Pos(set.Pos()), "no case for stroke-miterlimit")
+		return
+	}
+	patched := map[string]bool{}
+	ast.Inspect(clause, func(m ast.Node) bool {
+		ta, ok := m.(*ast.TypeAssertExpr)
+		if !ok || ta.Type == nil {
+			return true
+		}
+		if k := limited(info.TypeOf(ta.Type)); k != "" {
+			patched[k] = true
+		}
+		return true
+	})
+	ast.Inspect(clause, func(m ast.Node) bool {
+		if ts, ok := m.(*ast.TypeSwitchStmt); ok {
+			for _, cs := range ts.Body.List {
+				for _, e := range cs.(*ast.CaseClause).List {
+					if k := limited(info.TypeOf(e)); k != "" {
+						patched[k] = true
+					}
+				}
+			}
+		}
+		return true
+	})
+	if patched["MiterJoiner"] && patched["ArcsJoiner"] {
+		r.OK("E11.svg-miterlimit-carried", key, c.Pos(clause.Pos()), "")
+	} else {
+		var missing []string
+		for _, k := range []string{"MiterJoiner", "ArcsJoiner"} {
+			if !patched[k] {
+				missing = append(missing, k)
+			}
+		}
+		r.Fail("E11.svg-miterlimit-carried", key, c.Pos(clause.Pos()), "a stroke-miterlimit that arrives after stroke-linejoin does not reach an installed "+strings.Join(missing, "/")+": the SVG writer emits the join before the limit, so its own output is read back with the limit 4")
+	}
 }
 
 // E11ArcSpanMagnitude: Path.Arc compares the angular span with π and 2π by magnitude.
@@ -8579,4 +8640,253 @@ func E11ArcSpanMagnitude(c *core.Ctx, r *core.Report) {
 	})
 	r.Count("E11.arc-span-comparisons", n)
 	r.Floor("E11.arc-span-comparisons", 2)
+}
+
+// E11SelectorSubject: a CSS rule applies to an element only if the selector's last compound matches that element.
+func E11SelectorSubject(c *core.Ctx, r *core.Report) {
+	r.Rule("E11.selector-subject", "a complex selector `A B > C` selects the elements matched by its last compound C (the subject) that have the required ancestors; the element being styled is the last entry of the importer's element stack. cssSelector.AppliesTo therefore anchors at the end: the last selector node is tested against the last element — directly, `sels[len(sels)-1].AppliesTo(elems[len(elems)-1])`, or in a helper that is entered with those two indices and applies `sels[i]` to `elems[j]` (indices compared as polynomials in len(sels)/len(elems), locals resolved). A matcher that walks forward from the root and succeeds as soon as the selector is used up applies `g{fill:red}` to every descendant of a group, overriding the descendants' own presentation attributes")
+	p := c.MustPkg("")
+	info := p.TypesInfo
+	fd := core.MustFuncDecl(p, "cssSelector.AppliesTo")
+	r.Func("canvas.cssSelector.AppliesTo")
+	key := "canvas.cssSelector.AppliesTo|the last compound is tested against the element itself"
+	recv := recvObj(info, fd)
+	elems := paramObj(info, fd, 0)
+	lenSym := func(selsO, elemsO types.Object) func(ast.Expr) string {
+		return func(e ast.Expr) string {
+			call, ok := e.(*ast.CallExpr)
+			if !ok || len(call.Args) != 1 {
+				return ""
+			}
+			fn, ok := core.Unparen(call.Fun).(*ast.Ident)
+			if !ok || fn.Name != "len" {
+				return ""
+			}
+			id, ok := core.Unparen(call.Args[0]).(*ast.Ident)
+			if !ok {
+				return ""
+			}
+			switch core.ObjOf(info, id) {
+			case selsO:
+				return "S"
+			case elemsO:
+				return "E"
+			}
+			return ""
+		}
+	}
+	isLast := func(e ast.Expr, which string, body ast.Node, selsO, elemsO types.Object) bool {
+		pe, ok := polyOf(info, e, lenSym(selsO, elemsO), singleDefs(info, body))
+		return ok && polyEqual(pe, poly{which: 1, "": -1})
+	}
+	// node-level calls X[i].AppliesTo(Y[j]) in a function body
+	type site struct {
+		selIdx, elemIdx ast.Expr
+		selBase, elBase types.Object
+	}
+	sitesOf := func(body ast.Node) []site {
+		var out []site
+		ast.Inspect(body, func(m ast.Node) bool {
+			call, ok := m.(*ast.CallExpr)
+			if !ok || len(call.Args) != 1 {
+				return true
+			}
+			se, ok := call.Fun.(*ast.SelectorExpr)
+			if !ok || se.Sel.Name != "AppliesTo" {
+				return true
+			}
+			si, ok1 := core.Unparen(se.X).(*ast.IndexExpr)
+			ei, ok2 := core.Unparen(call.Args[0]).(*ast.IndexExpr)
+			if !ok1 || !ok2 {
+				return true
+			}
+			sb, ok1 := core.Unparen(si.X).(*ast.Ident)
+			eb, ok2 := core.Unparen(ei.X).(*ast.Ident)
+			if ok1 && ok2 {
+				out = append(out, site{si.Index, ei.Index, core.ObjOf(info, sb), core.ObjOf(info, eb)})
+			}
+			return true
+		})
+		return out
+	}
+	found := false
+	for _, s := range sitesOf(fd.Body) {
+		if s.selBase == recv && s.elBase == elems && isLast(s.selIdx, "S", fd.Body, recv, elems) && isLast(s.elemIdx, "E", fd.Body, recv, elems) {
+			found = true
+		}
+	}
+	if !found {
+		// a helper entered with the two last indices
+		ast.Inspect(fd.Body, func(m ast.Node) bool {
+			call, ok := m.(*ast.CallExpr)
+			if !ok || found {
+				return true
+			}
+			f := core.CalleeOf(info, call)
+			if f == nil || f.Pkg() == nil || f.Pkg() != p.Types || f.Name() == "AppliesTo" {
+				return true
+			}
+			var hd *ast.FuncDecl
+			for _, d := range core.AllFuncDecls(p) {
+				if info.Defs[d.Name] == f {
+					hd = d
+				}
+			}
+			if hd == nil {
+				return true
+			}
+			// which parameters receive len(sels)-1 and len(elems)-1
+			var pSel, pElem types.Object
+			var hParams []types.Object
+			for _, fl := range hd.Type.Params.List {
+				for _, nm := range fl.Names {
+					hParams = append(hParams, info.Defs[nm])
+				}
+			}
+			for i, a := range call.Args {
+				if i >= len(hParams) {
+					break
+				}
+				if isLast(a, "S", fd.Body, recv, elems) {
+					pSel = hParams[i]
+				}
+				if isLast(a, "E", fd.Body, recv, elems) {
+					pElem = hParams[i]
+				}
+			}
+			if pSel == nil || pElem == nil {
+				return true
+			}
+			for _, s := range sitesOf(hd.Body) {
+				si, ok1 := core.Unparen(s.selIdx).(*ast.Ident)
+				ei, ok2 := core.Unparen(s.elemIdx).(*ast.Ident)
+				if ok1 && ok2 && core.ObjOf(info, si) == pSel && core.ObjOf(info, ei) == pElem {
+					found = true
+				}
+			}
+			return true
+		})
+	}
+	if found {
+		r.OK("E11.selector-subject", key, c.Pos(fd.Pos()), "")
+	} else {
+		r.Fail("E11.selector-subject", key, c.Pos(fd.Pos()), "no test of the last selector node against the last element of the stack was found: the matcher is not anchored at the subject, so a rule whose selector matches an ancestor is applied to every descendant (`g{fill:red}` overrides a rect with fill=blue inside a group)")
+	}
+	r.Count("E11.selector-matchers", 1)
+	r.Floor("E11.selector-matchers", 1)
+}
+
+// E11PercentReference: percentages of the importer refer to the viewBox when there is one.
+func E11PercentReference(c *core.Ctx, r *core.Report) {
+	r.Rule("E11.percent-reference", "a percentage length in SVG is relative to the viewport measured in user units: with a viewBox that is the viewBox's width and height (and their normalised diagonal), without one the viewport in pixels. svgParser.init sets the view from the viewBox in one branch and from the pixel size in the other; sibling agreement: in the branch whose view is scaled by the viewBox extents, the parser's reference lengths — the fields handed to parseDimension as the `parent` of percentages — are assigned from viewbox[2] and viewbox[3], and the diagonal is computed from them afterwards. With the pixel size as reference under a viewBox, `<svg width=\"200\" viewBox=\"0 0 20 10\"><rect width=\"50%\"/>` is 100 user units wide: five times the canvas")
+	p := c.MustPkg("")
+	info := p.TypesInfo
+	fd := core.MustFuncDecl(p, "svgParser.init")
+	r.Func("canvas.svgParser.init")
+	recv := recvObj(info, fd)
+	vb := paramObj(info, fd, 2)
+	key := "canvas.svgParser.init|percentage references follow the viewBox"
+	// reference fields: those passed as the second argument of parseDimension anywhere in svg.go
+	refFields := map[string]bool{}
+	for _, f := range core.AllFuncDecls(p) {
+		if !strings.HasSuffix(c.Fset.Position(f.Pos()).Filename, "/svg.go") {
+			continue
+		}
+		ast.Inspect(f.Body, func(m ast.Node) bool {
+			call, ok := m.(*ast.CallExpr)
+			if !ok || len(call.Args) != 2 {
+				return true
+			}
+			if cf := core.CalleeOf(info, call); cf == nil || cf.Name() != "parseDimension" {
+				return true
+			}
+			if se, ok := core.Unparen(call.Args[1]).(*ast.SelectorExpr); ok {
+				if s := info.Selections[se]; s != nil && s.Kind() == types.FieldVal {
+					refFields[se.Sel.Name] = true
+				}
+			}
+			return true
+		})
+	}
+	if len(refFields) < 2 {
+		r.Fail("E11.percent-reference", key, c.Pos(fd.Pos()), "the reference-length fields passed to parseDimension were not found")
+		return
+	}
+	mentionsVB := func(e ast.Node, idx int64) bool {
+		f := false
+		ast.Inspect(e, func(k ast.Node) bool {
+			if ie, ok := k.(*ast.IndexExpr); ok {
+				if id, ok := core.Unparen(ie.X).(*ast.Ident); ok && core.ObjOf(info, id) == vb {
+					if v, ok := core.ConstInt(info, ie.Index); ok && v == idx {
+						f = true
+					}
+				}
+			}
+			return true
+		})
+		return f
+	}
+	// the branch that scales the view by the viewBox
+	var branch *ast.BlockStmt
+	ast.Inspect(fd.Body, func(m ast.Node) bool {
+		is, ok := m.(*ast.IfStmt)
+		if !ok || branch != nil {
+			return true
+		}
+		if mentionsVB(is.Cond, 2) && mentionsVB(is.Cond, 3) && mentionsVB(is.Body, 2) {
+			branch = is.Body
+		}
+		return true
+	})
+	if branch == nil {
+		r.Fail("E11.percent-reference", key, c.Pos(fd.Pos()), "the branch that sets the view from the viewBox was not found")
+		return
+	}
+	got := map[int64]bool{}
+	var lastAssign token.Pos
+	ast.Inspect(branch, func(m ast.Node) bool {
+		as, ok := m.(*ast.AssignStmt)
+		if !ok || len(as.Lhs) != len(as.Rhs) {
+			return true
+		}
+		for i, l := range as.Lhs {
+			names, rooted := ctxFieldPath(info, l, recv)
+			if !rooted || len(names) != 1 || !refFields[names[0]] {
+				continue
+			}
+			for _, idx := range []int64{2, 3} {
+				if mentionsVB(as.Rhs[i], idx) {
+					got[idx] = true
+					lastAssign = as.End()
+				}
+			}
+		}
+		return true
+	})
+	// the diagonal (a reference field computed from the others) is assigned after them
+	diagAfter := false
+	ast.Inspect(fd.Body, func(m ast.Node) bool {
+		as, ok := m.(*ast.AssignStmt)
+		if !ok || len(as.Lhs) != 1 || len(as.Rhs) != 1 {
+			return true
+		}
+		names, rooted := ctxFieldPath(info, as.Lhs[0], recv)
+		if !rooted || len(names) != 1 || !refFields[names[0]] {
+			return true
+		}
+		if name, _ := core.MathFunc(info, as.Rhs[0]); (name == "Sqrt" || name == "Hypot") && as.Pos() >= lastAssign && lastAssign.IsValid() {
+			diagAfter = true
+		}
+		return true
+	})
+	switch {
+	case !got[2] || !got[3]:
+		r.Fail("E11.percent-reference", key, c.Pos(branch.Pos()), "in the branch that scales the view by the viewBox the reference lengths for percentages are not taken from viewbox[2] and viewbox[3]: percentages stay relative to the pixel size although one user unit is no longer one pixel")
+	case !diagAfter:
+		r.Fail("E11.percent-reference", key, c.Pos(branch.Pos()), "the normalised diagonal is not recomputed after the reference lengths were taken from the viewBox")
+	default:
+		r.OK("E11.percent-reference", key, c.Pos(branch.Pos()), "")
+	}
+	r.Count("E11.percent-reference-sites", 1)
+	r.Floor("E11.percent-reference-sites", 1)
 }
